@@ -21,6 +21,7 @@ import time
 import traceback
 
 from . import plan as planmod
+from . import simfs
 
 VERIF = os.path.dirname(os.path.dirname(os.path.abspath(__file__)))
 
@@ -121,6 +122,11 @@ def execute_guarded(scn, plan, keep_log=False, timeout=60):
         out = {
             "violations": [{"invariant": "%s.hang" % plan["property"], "detail": "one step of the run did not return within %ss of wall time" % timeout, "info": {}}],
             "digest": "hang", "stats": collections.Counter(), "states": set(), "evals": 1, "sim_us": 0,
+        }  # fmt: skip
+    except simfs.Livelock as e:
+        out = {
+            "violations": [{"invariant": "%s.hang" % plan["property"], "detail": "no termination: %s" % e, "info": {}}],
+            "digest": "livelock", "stats": collections.Counter(), "states": set(), "evals": 1, "sim_us": 0,
         }  # fmt: skip
     finally:
         signal.setitimer(signal.ITIMER_REAL, 0)
